@@ -171,6 +171,25 @@ def relocate_stream(rng, pid, kinds=ALL_KINDS):
     return out
 
 
+WAIT_BASE = 1000000
+
+
+def stall_stream(rng, pid, ms=2300):
+    """a thread waits *long* for its turn: thread 0 is inside the wrapped iterator's `next()` while thread 1, which has reserved the
+    next position(s), spins for `ms` milliseconds of wall-clock time at native speed (millions of rounds; a wait window of the
+    schedule) -- then thread 0 goes on and both drain the source. Waiting, however long, changes nothing (implementation only:
+    the number of spin rounds is not reproducible)"""
+    out = []
+    for i, second in enumerate((["next", "foreach 1"], ["chunk 2 all", "foreach 2"])):
+        c = make_source(rng, "%s-stall%d" % (pid, i), "iter", 6, hint=("exact" if i == 0 else "inexact"))
+        c.threads = [["next", "foreach 1"], second]
+        c.sched = [0] * 6 + [WAIT_BASE + 16 * ms + 1]
+        c.owner = "intoseq all"
+        c.tags = {"implonly", "nomodel"}
+        out.append(c)
+    return out
+
+
 def hintpanic_stream(rng, pid):
     """a wrapped iterator whose `size_hint` panics once it has produced everything -- if anybody asks at that moment: the crate
     reads `size_hint` only while constructing the concurrent iterator (`hint=panicend` is an inexact hint otherwise)"""
@@ -769,6 +788,9 @@ def stream_for(pid, tier, seed):
     for c in cases:
         if c.has_op("skip") and not c.id.startswith("D") and r2.random() < 0.34:
             c.rawskip = True
+        # every fourth case over an owning wrapped iterator uses a zero-sized iterator *type*
+        if c.kind == "iter" and c.adapt == "none" and not c.zst and not c.pod and not c.id.startswith("D") and r2.random() < 0.25:
+            c.zstiter = True
         # ... and every third case with a clone makes it by `Clone::clone_from` onto an iterator that is ahead of the source
         if c.has_op("clone") and not c.id.startswith("D") and r2.random() < 0.34:
             c.clonefrom = True
@@ -781,7 +803,7 @@ def stream_for0(pid, tier, seed):
     big = tier != "quick"
     if pid in ("C01", "C02", "C04"):
         return defects + pulls_stream(rng, tier, pid) + half_stream(rng, pid) + nth_stream(rng, pid) + liar_stream(rng, pid) + zst_stream(rng, pid) + pod_stream(rng, pid) + \
-            wrapper_nth_stream(rng, pid) + last_stream(rng, pid) + forget_stream(rng, pid) + relocate_stream(rng, pid)
+            wrapper_nth_stream(rng, pid) + last_stream(rng, pid) + forget_stream(rng, pid) + relocate_stream(rng, pid) + stall_stream(rng, pid)
     if pid == "C03":
         cases = defects + pulls_stream(rng, tier, pid, prof=dict(loops=False, query=False, drain=0.2))
         cases += half_stream(rng, pid) + nth_stream(rng, pid) + liar_stream(rng, pid) + zst_stream(rng, pid) + pod_stream(rng, pid)
@@ -865,7 +887,7 @@ def stream_for0(pid, tier, seed):
         # length queries on an exact-size source while another thread is inside the wrapped iterator
         qprogs = [[["next", "next"], ["len", "hasmore", "len"]], [["bufnew 2", "bufnext all"], ["hasmore", "len", "hasmore"]]]
         cases += exhaustive("C07-q2", small_bases(rng, qprogs, ["iter", "iterref"]), 2, 9 if not big else 12)
-        cases += phase_stream(rng, pid)
+        cases += phase_stream(rng, pid) + stall_stream(rng, pid)
         return cases
     if pid in ("C08", "C15"):
         prof = dict(kinds=["vec", "array", "iter"], skip=True, lens=[0, 1, 2, 3, 5, 8], drain=0.3)
@@ -909,7 +931,7 @@ def stream_for0(pid, tier, seed):
             for b in bases:
                 b.script = b.script[:k] + ["P"] + b.script[k:]
             cases += exhaustive("C09-px%d" % k, bases, 2, 7 if not big else 10)
-        cases += huge_chunk_stream(rng, pid) + wrapper_droppanic_stream(rng, pid) + inpanic_stream(rng, pid)
+        cases += huge_chunk_stream(rng, pid) + wrapper_droppanic_stream(rng, pid) + inpanic_stream(rng, pid) + stall_stream(rng, pid)
         return cases
     if pid == "C10":
         return defects + pulls_stream(rng, tier, pid, prof=dict(skip=True, owners=["intoseq all", "intoseq 1", "intoseq 2", "intoseq 0"]), exh=False, n_random=2000 if not big else 80000) + liar_stream(rng, pid) + zst_stream(rng, pid) + \
